@@ -349,7 +349,7 @@ def run_sim(item, only=None):
         {"st": "PS-B", "a": 3, "d": 5, "sid": "ev2", "batt": "ideal", "e": 0.5, "cap": 3.0, "init": 1.0, "pmax": 7.0},
     ]
     for st in starts:
-        for period in (1, 5) if tier == "quick" else (1, 5, 15):
+        for period in (1, 5, 8) if tier == "quick" else (1, 5, 15, 8, 45, 90):  # 8, 45, 90: periods that do not divide an hour
             ctx = {"start": st.isoformat(), "period": period}
             if only is not None and only != ctx:
                 continue
